@@ -160,6 +160,8 @@ def classify_component(c, w, k):
         for cond in w.conds:
             if cond[0] == "op" and cond[1] == "==" and cond[2][0] == "elem" and cond[2][2] == (c,) and cond[3] == ("const", True):
                 return ("B", root_of(cond[2][1]) or show(cond[2][1]), c)
+            if cond[0] == "elem" and len(cond) > 2 and cond[2] == (c,):      # `if mask[v]` == `if mask[v] == true`
+                return ("B", root_of(cond[1]) or show(cond[1]), c)
         return ("A", None, c)
     if c[0] == "elem" and len(c[2]) == 1:
         return ("BAD:index-value-used-without-minus-one:%s" % show(c), root_of(c[1]), None)
@@ -375,7 +377,9 @@ def run(F, rep, tier):
             try:
                 k = Kernel(fs.solve, fs.fields)
             except Unrecognised as e:
-                rep.bad("C03-R2", "unrecognised-kernel:%s" % nm, "access kernel %s not recognised by the normal-form evaluator: %s" % (nm, e))
+                # a kernel in a form the evaluator does not normalise (an iterator pipeline with closures ...) is UNDECIDED, not reported: the struct is still reachable from the
+                # dispatcher (floor above) and the floor "access kernels normalised" below bounds how many kernels may be in that state
+                rep.note("undecided", "C03-R2: access kernel %s is not normalised by the kernel evaluator (%s): its index arithmetic is not decided in this form" % (nm, e))
                 continue
             n_k += 1
             probs = check_access_kernel(fs, k, forms)
